@@ -160,7 +160,11 @@ fn gen_park(rng: &mut Rng, tier: u32, may_be_untimed: bool) -> (u64, bool) {
         // whole-second durations are in the mix (seeded change C08_d: a deadline computed from the sub-second part only):
         // with active unparkers such a park is ended by an unpark after a few milliseconds and must report Ok - a
         // `Timeout` before the duration is the "never early" oracle's business
-        ([20, 30, 20, 30, 1000, 2000][rng.below(6) as usize], false)
+        if rng.chance(80) {
+            ([1000, 2000][rng.below(2) as usize], false)
+        } else {
+            ([20, 30][rng.below(2) as usize], false)
+        }
     }
 }
 
